@@ -1,4 +1,4 @@
-import BoltonsVerif.C06.Roundtrip
+import BoltonsVerif.C06.NoAuth
 /-
 C06 — property theorems for the URL quoting / parsing / rendering model.
 
@@ -264,6 +264,125 @@ example : ((toText env0 true u0).toOption.bind fun t => (URL.ofText env0 t).toOp
    structural ones, no raw line feed -/
 example : ((toText env0 true u0).toOption.map fun t =>
     (t.count 64, t.count 63, t.count 35, t.count 10, (t.filter (· == 47)).length)) = some (1, 1, 1, 0, 4) := by
+  decide +kernel
+
+/-! ## URLs and references without an authority (`mailto:…`, `urn:…`, `file:///…`, relative references) -/
+
+/-- FULL STATEMENT: see `render_fixed_full_partial`.  PROVED PART (second family of shapes): render → parse →
+    render is the identity on the text for every URL WITHOUT authority (`WFna`: no host, no userinfo; a scheme -
+    whether or not it uses a netloc - or none, i.e. a relative reference; at least one path segment; arbitrary
+    texts in path segments, query and fragment; in a relative reference the first segment renders without a raw
+    `:`).  Covers `scheme:rootless/path`, `scheme:/abs`, `scheme:///abs` (the `//` written for a netloc scheme
+    with an empty authority, and for a path that begins with `//`), `/abs`, `rel/path`, `?q`, `#f`, the empty
+    reference.  What comes back (`normalN`): the components NFC-normalised, `//` remembered, no port. -/
+theorem render_fixed_full_noauth_partial (env : Env) (hl : NfcLaws env.nfc) (u : URL) (hW : WFna env u) :
+    ∃ t u₁, toText env true u = .ok t ∧ URL.ofText env t = .ok u₁ ∧ toText env true u₁ = .ok t ∧
+      u₁.scheme = u.scheme ∧ u₁.host = [] ∧ u₁.pathParts = u.pathParts.map env.nfc ∧
+      u₁.query = u.query.map (fun kv => (env.nfc kv.1, kv.2.map env.nfc)) ∧ u₁.fragment = env.nfc u.fragment :=
+  have h := render_fixedN env true env.nfc
+    (fun c s => by simp [quotePart, quoteFull_idem _ hl.idem]) hl.idem u hW.toWFnq
+  ⟨urlTextN env true u, normalN env true env.nfc u, h.1, h.2.1, h.2.2, rfl, rfl, rfl, rfl, rfl⟩
+
+/-- the same in minimal mode, when no path segment, query key / value or fragment contains `%` (`WFnaMin`) -/
+theorem render_fixed_min_noauth_partial (env : Env) (u : URL) (hW : WFnaMin env u) :
+    ∃ t u₁, toText env false u = .ok t ∧ URL.ofText env t = .ok u₁ ∧ toText env false u₁ = .ok t ∧
+      u₁.scheme = u.scheme ∧ u₁.host = [] ∧ u₁.pathParts = u.pathParts ∧ u₁.query = u.query ∧
+      u₁.fragment = u.fragment :=
+  have h := render_fixedN env false id (fun _ _ => rfl) (fun _ => rfl) u hW.toWFnq
+  ⟨urlTextN env false u, normalN env false id u, h.1, h.2.1, h.2.2, rfl, rfl, by simp [normalN], by
+    simp only [normalN, decPair]
+    conv => rhs; rw [← List.map_id u.query]
+    apply List.map_congr_left
+    intro kv _
+    obtain ⟨k, v⟩ := kv
+    cases v <;> rfl, rfl⟩
+
+/-- the `//` that `to_text` writes without an authority is remembered by the parser and written again, and a
+    URL parsed without `//` does not get one (whatever the scheme tables say) -/
+theorem netloc_slashes_stable (scheme : Text) (parsedWithSlashes : Bool) (path : Text) :
+    slashesS scheme (slashesS scheme parsedWithSlashes path) path = slashesS scheme parsedWithSlashes path :=
+  slashesS_idem scheme parsedWithSlashes path
+
+/-! non-vacuity: `mailto:a b@x?s=%`, `file:///e t/c` (a netloc scheme, empty authority), the relative references
+    `/a?b` … `x/../y#z`, and `//`-initial paths -/
+
+/-- `mailto:` + one rootless segment `a b@x`, query `s` = `%` -/
+def uMail : URL :=
+  { scheme := [109, 97, 105, 108, 116, 111], netlocSep := false, username := [], password := [], family := .none,
+    host := [], port := none, pathParts := [[97, 32, 98, 64, 120]], query := [([115], some [37])], fragment := [] }
+
+/-- path segments + fragment `#?` under a scheme (or none) -/
+def uPath (scheme : Text) (parts : List Text) : URL :=
+  { scheme := scheme, netlocSep := false, username := [], password := [], family := .none, host := [], port := none,
+    pathParts := parts, query := [], fragment := [35, 63] }
+
+theorem wfna_mail : WFna env0 uMail where
+  scheme_ok := by decide
+  host_nil := rfl
+  user_nil := rfl
+  pw_nil := rfl
+  parts_ne := by decide
+  no_colon := by intro h; cases h
+  query_ok := by decide
+  scalars := ⟨by decide, by decide, by decide, by decide, by
+    intro kv hkv
+    simp only [uMail, List.mem_cons, List.mem_nil_iff, or_false] at hkv
+    subst hkv
+    exact ⟨by decide, by intro v hv; cases hv; decide⟩⟩
+
+/-- `file:///e t/c#%23%3F`: a scheme that uses a netloc, an empty authority -/
+theorem wfna_file : WFna env0 (uPath [102, 105, 108, 101] [[], [101, 32, 116], [99]]) where
+  scheme_ok := by decide
+  host_nil := rfl
+  user_nil := rfl
+  pw_nil := rfl
+  parts_ne := by decide
+  no_colon := by intro h; cases h
+  query_ok := by decide
+  scalars := ⟨by decide, by decide, by decide, by decide, by intro kv hkv; cases hkv⟩
+
+/-- the relative reference `/e t/c#…` -/
+theorem wfna_rel : WFna env0 (uPath [] [[], [101, 32, 116], [99]]) where
+  scheme_ok := by decide
+  host_nil := rfl
+  user_nil := rfl
+  pw_nil := rfl
+  parts_ne := by decide
+  no_colon := by intro _; decide +kernel
+  query_ok := by decide
+  scalars := ⟨by decide, by decide, by decide, by decide, by intro kv hkv; cases hkv⟩
+
+/-- a relative path that begins with `//` (segments `''`, `''`, `c`): `to_text` writes an empty authority before it -/
+theorem wfna_slashes : WFna env0 (uPath [] [[], [], [99]]) where
+  scheme_ok := by decide
+  host_nil := rfl
+  user_nil := rfl
+  pw_nil := rfl
+  parts_ne := by decide
+  no_colon := by intro _; decide +kernel
+  query_ok := by decide
+  scalars := ⟨by decide, by decide, by decide, by decide, by intro kv hkv; cases hkv⟩
+
+theorem wfnamin_rel : WFnaMin env0 (uPath [] [[], [101, 32, 116], [99]]) where
+  scheme_ok := by decide
+  host_nil := rfl
+  user_nil := rfl
+  pw_nil := rfl
+  parts_ne := by decide
+  no_colon := by intro _; decide +kernel
+  query_ok := by decide
+  no_pct_parts := by decide
+  no_pct_query := by intro kv hkv; cases hkv
+  no_pct_frag := by decide
+
+/- `mailto:` has no `//`, `file:` gets one with an empty authority, and so does the relative path `//c`: the
+   slashes in the renderings are 0 / 4 (`file:` + `//` + `/e%20t/c`) / 4 (`//` + `//c`) -/
+example : ((toText env0 true uMail).toOption.map fun t => t.count 47) = some 0 ∧
+    ((toText env0 true (uPath [102, 105, 108, 101] [[], [101, 32, 116], [99]])).toOption.map fun t => t.count 47) = some 4 ∧
+    ((toText env0 true (uPath [] [[], [], [99]])).toOption.map fun t => t.count 47) = some 4 := by decide +kernel
+
+example : ((toText env0 true (uPath [102, 105, 108, 101] [[], [101, 32, 116], [99]])).toOption.bind fun t =>
+    (URL.ofText env0 t).toOption) = some { uPath [102, 105, 108, 101] [[], [101, 32, 116], [99]] with netlocSep := true } := by
   decide +kernel
 
 /-! ## totality -/
